@@ -26,7 +26,8 @@ type GOp struct {
 	Data   []byte            `json:"data,omitempty"`
 	Meta   gcs.ObjMeta       `json:"meta,omitempty"`
 	Gzip   bool              `json:"gzip,omitempty"`
-	Conds  map[string]string `json:"conds,omitempty"` // symbolic values: cur other zero bad, or a literal number
+	GzN    int               `json:"gzip_members,omitempty"` // >1: the compressed body consists of several gzip members
+	Conds  map[string]string `json:"conds,omitempty"`        // symbolic values: cur other zero bad, or a literal number
 	// resumable: chunk plan; nil = one chunk with the whole payload
 	Chunks []GChunk `json:"chunks,omitempty"`
 	No308  bool     `json:"no308,omitempty"`
@@ -77,6 +78,9 @@ func (o GOp) String() string {
 		}
 		if o.Gzip {
 			s += ",gzip"
+			if o.GzN > 1 {
+				s += fmt.Sprintf("x%d", o.GzN)
+			}
 		}
 		if o.Chunks != nil {
 			s += fmt.Sprintf(",chunks=%v", o.Chunks)
@@ -549,6 +553,11 @@ func (w *gcsWorld) stepUpload(o *GOp) (string, string) {
 		return fmt.Sprintf("%s: ", o.String()) + fmt.Sprintf(f, a...) + "\n   http: " + strings.Join(w.trace, "\n         "), class
 	}
 	conds := w.resolve(o.Bucket, o.Name, o.Conds)
+	gcs.GzipMembers = 1
+	if o.GzN > 1 {
+		gcs.GzipMembers = o.GzN
+	}
+	defer func() { gcs.GzipMembers = 1 }()
 	var final gcs.HTTPResp
 	switch o.Proto {
 	case "media":
